@@ -82,9 +82,17 @@ def build_lens(seed, i):
             meta["variant"].append("focused")
         except Exception:
             optic.set_thickness(t_old, n - 2)
-    if i % 8 == 3 and _f(optic.image_surface.material_pre.n(w0)) != 1.0 and nrefl == 0:
+    if i % 8 == 3 and nrefl == 0 and (i % 16 == 3 or _f(optic.image_surface.material_pre.n(w0)) != 1.0):
         # true immersion: the image surface carries the last medium on both sides (no refraction there)
-        optic = rebuild(optic, optic.image_surface.material_pre)
+        med = optic.image_surface.material_pre
+        if i % 16 == 3:
+            # a dispersive immersion medium (vitreous body, immersion liquid): the index of the last
+            # leg is the one at the traced wavelength, which differs from that at the primary
+            from optiland.materials import AbbeMaterial
+            med = AbbeMaterial(n=round(rnd.uniform(1.33, 1.7), 3), abbe=round(rnd.uniform(25.0, 65.0), 1))
+            sg.surfaces[-2].material_post = med
+            meta["variant"].append("image_medium_dispersive")
+        optic = rebuild(optic, med)
         sg = optic.surface_group
         meta["variant"].append("image_immersed")
     if not finite and i % 8 == 5:
